@@ -250,6 +250,13 @@ def main(run):
     else:
         run.notes.append("the final combination of ProductKernel.Iq (PS, combined_scale, final_result) translated from the current product.py (Gen/C07_combine.v, symbolic numpy evaluation per flag combination) and proved equal to the model's combine (C07_code_combine, C07_code_formula)")
     pnames = p_candidates() if thorough else [p for p in QUICK_P]
+    # plug-in form factors whose volumes and amplitude are known in closed form (C01's hollow definitions: the shell
+    # volume given as an inline string, and a definition with an amplitude function): what P reports is compared with
+    # the definition itself, not only recombined
+    hp_ = c01.hollow_defs(run.scratch.sub("plugins"))
+    synth = {hp_[nm_]: c01.hollow_leaf(nm_.endswith("_fq")) for nm_ in ("verif_hollow_str", "verif_hollow_fq")}
+    pnames = list(pnames) + sorted(synth)
+    stats_synth = [0]
     cases, metas = [], []
     stats = dict(pairs=0, modes={}, beta=0, volfrac_in_p=0, hollow=0, dims={"1d": 0, "2d": 0}, with_dispersity=0,
                  layout_checked=0, beta_2d_refused=0, skipped=0)
@@ -377,6 +384,15 @@ def main(run):
                 pk = pm.make_kernel(q); sk = sm.make_kernel(q)
                 fq = dict(ppars); fq.update(disp); fq.update(scale=1.0, background=0.0, radius_effective_mode=mode)
                 F, Fsq, reff, shell, ratio = call_Fq(pk, fq, cutoff=1e-5)
+                if pn in synth and not disp:
+                    ok_, _, comps_ = synth[pn](dict(ppars), mode, q)
+                    stats_synth[0] += 1
+                    if ok_ and (abs(shell - comps_[2]) > 1e-10 * abs(comps_[2]) or abs(ratio - comps_[1] / comps_[2]) > 1e-10 * abs(comps_[1] / comps_[2])
+                                or not np.allclose(np.asarray(Fsq, "d"), np.asarray(comps_[4:4 + len(q[0])], "d"), rtol=1e-9, atol=0)):
+                        run.add(Finding("C07:P-definition:%s" % os.path.basename(pn), "%s@%s: the form factor reports V_shell = %.10g, V_form/V_shell = %.10g; its definition gives %.10g and %.10g (these scale the intensity and the volume fraction handed to S)" % (
+                            os.path.basename(pn), sn, shell, ratio, comps_[2], comps_[1] / comps_[2]), dict(desc, reported=dict(shell=float(shell), ratio=float(ratio)), definition=dict(form=comps_[1], shell=comps_[2]))))
+                        pk.release(); sk.release()
+                        continue
                 # P's averages are the leaves of the recombination; for the dispersed cases whose mesh is small enough
                 # they are themselves checked against the property's words: the weighted mean over the mesh of the
                 # effective radius / volumes of monodisperse evaluations (mesh points in table order, weights from
@@ -475,6 +491,7 @@ def main(run):
                 if codes:
                     m = metas[si * N + k]
                     run.add(Finding("C07:corr:%s@%s" % (m["P"], m["S"]), "%s@%s: P@S differs from the Coq combination at q indices %s" % (m["P"], m["S"], codes), m))
+    stats["synthetic_P_checked_against_definition"] = stats_synth[0]
     run.coverage.update(evaluations=evals, distinct_nontrivial=len(distinct), traces_validated_against_impl=traces, input_distribution=stats)
     run.assumptions += ["P and S are evaluated alone through call_Fq / call_kernel with the values the documentation says S receives (R_eff of the selected mode or the user's value, volfraction * V_form/V_shell)"]
     run.finish_args = dict(level="proof",
